@@ -6,6 +6,7 @@ import (
 	"fmt"
 	"go/ast"
 	"go/constant"
+	"go/token"
 	"go/types"
 	"sort"
 	"strings"
@@ -19,10 +20,10 @@ func init() {
 		Title: "io handles act as a byte sequence with one cursor under any read/write/seek",
 		Explanation: "Decided: R19-closed (typestate) — in every function that handles an *lFile, each instruction that touches the underlying descriptor, reader, writer or process (a call on a value loaded from fp/reader/writer/pp/stdout, a store to one of those fields, AbandonReadBuffer, or a call of a helper that does so unguarded) is dominated by errorIfFileIsClosed on that same file (or by a raising test of .closed); exempt with reasons: constructors, the close transition itself, pure observers (Type, Name, nil-ness tests); " +
 			"R19-reconcile — every path through fileWriteAux reaches AbandonReadBuffer before returning, fileSeek abandons the read buffer before fp.Seek, fileCloseAux flushes a buffered writer before closing, AbandonReadBuffer seeks back by exactly the buffered amount relative to the current position and replaces the reader; " +
-			"R19-modes — ioOpenFile's mode switch equals the ISO C fopen table (flags per mode from the os package's constants for the analysed GOOS; 'r' not writable, 'w' not readable). " +
+			"R19-eofdata — the buffered read helpers report end-of-file only when they collected no bytes; R19-modes — ioOpenFile's mode switch equals the ISO C fopen table (flags per mode from the os package's constants for the analysed GOOS; 'r' not writable, 'w' not readable). " +
 			"NOT decided: the byte-sequence model itself (what is read after which writes).",
 		Trusted: []string{"ISO C fopen mode table (C11 7.21.5.3) written out in the checker"},
-		Rules:   []func(*Ctx){ruleClosed, ruleReconcile, ruleModes},
+		Rules:   []func(*Ctx){ruleClosed, ruleReconcile, ruleEofData, ruleModes},
 	})
 }
 
@@ -413,6 +414,38 @@ func ruleReconcile(c *Ctx) {
 			}
 		})
 		c.check(okr, R, "AbandonReadBuffer:fresh-reader", p.pos(fn.Pos()), "the stale reader is replaced after the seek", "the stale buffered reader is kept after the descriptor moved")
+	}
+}
+
+// ruleEofData: the buffered read helpers report end-of-file only when no data was collected.
+func ruleEofData(c *Ctx) {
+	const R = "R19-eofdata"
+	c.floor(R, 2)
+	p := c.P
+	for _, name := range []string{"readBufioLine", "readBufioSize"} {
+		fn := c.need(R, "lua", name)
+		if fn == nil {
+			continue
+		}
+		okc := false
+		n := 0
+		allInstrs(fn, func(in ssa.Instruction) {
+			r, ok := in.(*ssa.Return)
+			if !ok || len(r.Results) != 3 {
+				return
+			}
+			n++
+			atoms, ok := truthAtomsOf(p, fn, r.Results[2])
+			if !ok {
+				return
+			}
+			for _, a := range atoms {
+				if strings.HasPrefix(a.L, "len(") && a.Op == token.EQL && a.B == "" && a.Off == 0 {
+					okc = true
+				}
+			}
+		})
+		c.check(okc && n == 1, R, name+":eof-only-when-empty", p.pos(fn.Pos()), "the end-of-file result requires len(result) == 0", name+" can report end-of-file although it already collected bytes: a final chunk that ends exactly at a buffer boundary is dropped (read returns nil and the cursor has moved)")
 	}
 }
 
